@@ -101,7 +101,55 @@ def other_for(rnd, kind, vals_fn, n, im):
 def form(rnd):
     """out of place / in-place operator / ufunc with out= a Phase target of either kind"""
     r = rnd.random()
-    return {"form": "op"} if r < 0.55 else {"form": "iop"} if r < 0.78 else {"form": "out", "tim": rnd.random() < 0.5}
+    if r < 0.5:
+        return {"form": "op"}
+    if r < 0.68:
+        return {"form": "iop"}
+    if r < 0.8:                           # out= aliases an input: the phase itself / the other (Phase) operand
+        return {"form": rnd.choice(["outself", "outself", "outdiv"])}
+    return {"form": "out", "tim": rnd.random() < 0.5}
+
+
+def _reshape(d, shape, keep=None):
+    """operand / phase recipe d with its elements cut to `keep` and laid out as `shape`"""
+    d = dict(d)
+    for key in ("i", "f", "vals"):
+        if key in d and keep is not None:
+            d[key] = d[key][:keep]
+    d["shape"] = shape
+    return d
+
+
+def _n(d):
+    return len(d["i"]) if "i" in d else len(d["vals"])
+
+
+def bcast(rnd, ph, o, prob=0.35):
+    """broadcasting as a generated dimension: length-1 axes on either side, (n,1) x (1,m),
+    (n,1) x (m,), (1,) x (m,), 0-d x (m,) ... (scalars stay scalars)"""
+    if rnd.random() >= prob:
+        return ph, o
+    parr = ph.get("shape") is not None
+    oarr = o.get("kind") in pd.ARRAY_KINDS
+    n, m = _n(ph), _n(o)
+    if parr and oarr:
+        how = rnd.choice(["p1", "o1", "col-row", "col-vec", "row-col", "p11"])
+        if how == "p1":
+            return _reshape(ph, [1], 1), _reshape(o, [m])
+        if how == "o1":
+            return _reshape(ph, [n]), _reshape(o, [1], 1)
+        if how == "col-row":
+            return _reshape(ph, [n, 1]), _reshape(o, [1, m])
+        if how == "col-vec":
+            return _reshape(ph, [n, 1]), _reshape(o, [m])
+        if how == "row-col":
+            return _reshape(ph, [1, n]), _reshape(o, [m, 1])
+        return _reshape(ph, [1, 1], 1), _reshape(o, [m])
+    if parr:                              # array phase with a scalar: give the phase a length-1 axis
+        if rnd.random() < 0.7:
+            return _reshape(ph, rnd.choice([[n, 1], [1, n]])), o
+        return _reshape(ph, [1], 1), o
+    return ph, o
 
 
 # ------------------------------------------------------------------ recipes
@@ -128,6 +176,7 @@ def gen_addsub(rnd, n):
                 c = count(rnd, big=(not big and rnd.random() < 0.4))
                 return int(c) if integer else c + rnd.choice([0.0, 0.5, 0.25, fraction(rnd)])
             o = other_for(rnd, kind, val, m or 1, im)
+        ph, o = bcast(rnd, ph, o)
         out.append(dict({"ev": "arith", "op": op, "ord": rnd.choice(["po", "op"]), "ph": ph, "ot": o}, **form(rnd)))
     return out
 
@@ -171,6 +220,7 @@ def gen_muldiv(rnd, n):
             ph = phase(rnd, big=False, im=im, n=m if arr else None)
         o = other_for(rnd, kind, val, m or 1, fim)
         ord_ = "po" if op == "div" else rnd.choice(["po", "op"])
+        ph, o = bcast(rnd, ph, o)
         out.append(dict({"ev": "arith", "op": op, "ord": ord_, "ph": ph, "ot": o}, **form(rnd)))
     return out
 
@@ -264,7 +314,45 @@ def gen_divmod(rnd, n):
             v = k * dfirst                       # (nearly) an exact multiple of the divisor
             ph = {"i": [hx(round(v))] * len(ph["i"]), "f": [hx(v - round(v))] * len(ph["i"]), "im": False,
                   "shape": ph["shape"]}
+        ph, o = bcast(rnd, ph, o, 0.25)
         out.append(dict({"ev": "arith", "op": op, "ord": "po", "ph": ph, "ot": o}, **divform(rnd, op)))
+    out += gen_divmod_correcting(rnd, max(8, n // 3))
+    return out
+
+
+def gen_divmod_correcting(rnd, n):
+    """operand pairs for which the single-double quotient floor(a.cycle / d) is off by one or is
+    imprecise, so that the correction pass must run: a = k*d -/+ a fraction far below ulp(k*d),
+    and counts 2^40..2^50 over small non-dyadic divisors; every form (out of place, in place,
+    out= each operand, out= a separate target, quotient to an array / a Quantity / None)"""
+    out = []
+    for _ in range(n):
+        op = rnd.choice(["mod", "divmod", "mod", "divmod", "floordiv"])
+        kind = rnd.choice(["phase", "phase", "phasearr", "cycleq", "angle", "cycleqarr"])
+        m = rnd.choice([2, 3]) if kind in pd.ARRAY_KINDS else None
+        cnt = m or 1
+        if rnd.random() < 0.65:
+            ds = [float(rnd.choice([1, 1, 2, 3, 7, -2, -5, 16])) for _ in range(cnt)]
+            ks = [rnd.choice([3, 1, -4, 1000, rnd.randrange(-10 ** 6, 10 ** 6), rnd.randrange(2 ** 30, 2 ** 48)])
+                  for _ in range(cnt)]
+            eps = [rnd.choice([-1e-20, -2.0 ** -60, 1e-20, -1e-17, 2.0 ** -58, -3e-19]) for _ in range(cnt)]
+            ai, af = [k * d for k, d in zip(ks, ds)], eps
+        else:
+            ds = [rnd.choice([0.3, 1 / 3, 0.7, 1.1, -0.3, 0.1]) for _ in range(cnt)]
+            ai = [float(rnd.choice([-1, 1]) * rnd.randrange(2 ** 40, 2 ** 50)) for _ in range(cnt)]
+            af = [rnd.uniform(-0.5, 0.5) for _ in range(cnt)]
+        arrp = m is not None and rnd.random() < 0.8
+        if not arrp:
+            ai, af = ai[:1], af[:1]
+        ph = {"i": [hx(x) for x in ai], "f": [hx(x) for x in af], "im": False, "shape": [len(ai)] if arrp else None}
+        if kind in ("phase", "phasearr"):
+            o = {"kind": kind, "i": [hx(round(d)) for d in ds], "f": [hx(d - round(d)) for d in ds], "im": False,
+                 "shape": [cnt] if kind == "phasearr" else None}
+        else:
+            o = ot(kind, ds[:cnt], shape=[cnt] if kind in pd.ARRAY_KINDS else None)
+        f = rnd.choice(["op", "iop", "outself", "out", "outdiv", "outdiv"]) if op != "floordiv" else rnd.choice(["op", "out"])
+        out.append({"ev": "arith", "op": op, "ord": "po", "ph": ph, "ot": o, "form": f, "tim": rnd.random() < 0.5,
+                    "qq": rnd.random() < 0.5, "qnone": rnd.random() < 0.4})
     return out
 
 
@@ -278,7 +366,7 @@ def divform(rnd, op):
         f = "op" if r < 0.4 else "iop" if r < 0.6 else "outself" if r < 0.75 else "out" if r < 0.94 else "outdiv"
     else:
         f = "op" if r < 0.5 else "outself" if r < 0.72 else "out" if r < 0.94 else "outdiv"
-    return {"form": f, "tim": rnd.random() < 0.5, "qq": rnd.random() < 0.5}
+    return {"form": f, "tim": rnd.random() < 0.5, "qq": rnd.random() < 0.5, "qnone": rnd.random() < 0.25}
 
 
 def gen_trig(rnd, n):
@@ -330,6 +418,49 @@ def gen_seq(rnd, n):
             st = dict({"op": op, "ord": "po" if op == "div" else rnd.choice(["po", "po", "op"])}, **form(rnd))
             steps.append(st)
         out.append({"ev": "seq", "ph": ph, "ot": o, "steps": steps})
+    return out
+
+
+def gen_boundary(rnd):
+    """the edge of the quantifier: count 2^52 with a stored fraction of exactly +-1/2 (the only place
+    where +1/2 survives normalisation), reached directly and by construction / addition /
+    multiplication; every operation and form on them.  Always present, whatever the seed."""
+    out = []
+    B = [(P52, 0.5), (-P52, -0.5), (P52, -0.5), (P52 - 1, 0.5), (P52, 0.25), (-P52, 0.5)]
+    def ph1(c, f, im=False):
+        return {"i": [hx(c)], "f": [hx(f)], "im": im, "shape": None}
+    arr = {"i": [hx(P52), hx(-P52), hx(P52 - 2)], "f": [hx(0.5), hx(-0.5), hx(0.5)], "im": False, "shape": [3]}
+    phases = [ph1(c, f) for c, f in B] + [ph1(P52, 0.5, True), arr]
+    for x, y in ((P52, 0.5), (P52 - 1, 1.5), (P52 - 10, 10.5), (0.5, P52), (-P52 + 1, -1.5), (2.0 ** 51 + 0.25, 2.0 ** 51 + 0.25)):
+        for k in ("pyfloat", "npfloat", "arr0", "cycleq"):
+            out.append({"ev": "arith", "op": "new2", "x": ot(k, [x]), "y": ot("pyfloat", [y])})
+    out.append({"ev": "arith", "op": "add", "ord": "po", "ph": ph1(P52 - 10, 0.0), "ot": as_phase_ot(ph1(10.0, 0.5))})
+    out.append({"ev": "arith", "op": "add", "ord": "op", "ph": ph1(P52 - 10, 0.0), "ot": ot("cycleq", [10.5])})
+    for k in ("pyint", "pyfloat", "arr0", "dimless"):
+        out.append({"ev": "arith", "op": "mul", "ord": rnd.choice(["po", "op"]), "ph": ph1(2.0 ** 51, 0.25), "ot": ot(k, [2.0])})
+        out.append({"ev": "arith", "op": "div", "ord": "po", "ph": ph1(2.0 ** 51, 0.25), "ot": ot(k, [0.5] if k != "pyint" else [1])})
+    for ph in phases:
+        for op in ("neg", "abs", "pos"):
+            for f in ("op", "out"):
+                out.append({"ev": "arith", "op": op, "np": rnd.choice(["abs", "np.abs", "np.fabs"]), "ph": ph, "form": f,
+                            "tim": rnd.random() < 0.5})
+        im = ph["im"]
+        for op, kind, v in (("add", "pyfloat", 0.0), ("sub", "pyint", 1), ("sub", "cycleq", 0.5), ("add", "npfloat", -0.5),
+                            ("sub", "phase", None), ("add", "arrn", -2.25), ("mul", "pyfloat", 1.0), ("mul", "pyint", -1),
+                            ("mul", "npfloat", 0.5), ("div", "pyfloat", 1.0), ("div", "pyint", 2), ("div", "arr0", -1.0),
+                            ("mod", "cycleq", 3.0), ("divmod", "angle", 1.0), ("mod", "phase", None), ("floordiv", "cycleq", 7.0)):
+            if im and (op in ("mod", "divmod", "floordiv") or (op in ("add", "sub") and kind != "phase")):
+                continue
+            if kind == "phase":
+                o = as_phase_ot(ph1(3.0, 0.5, im))
+            elif kind == "arrn":
+                k = len(ph["i"]) if ph["shape"] else 2
+                o = ot(kind, [v - j for j in range(k)], shape=[k])
+            else:
+                o = ot(kind, [v])
+            fm = rnd.choice(["op", "op", "iop", "out", "outself"])
+            out.append({"ev": "arith", "op": op, "ord": "po" if op in ("div", "mod", "divmod", "floordiv") else rnd.choice(["po", "op"]),
+                        "ph": ph, "ot": o, "form": fm, "tim": rnd.random() < 0.5, "qq": rnd.random() < 0.5})
     return out
 
 
@@ -401,6 +532,7 @@ def fixed_cases():
 
 def recipes(rnd, scale):
     rc = fixed_cases()
+    rc += gen_boundary(rnd)
     rc += gen_new(rnd, 200 * scale)
     rc += gen_addsub(rnd, 380 * scale)
     rc += gen_muldiv(rnd, 500 * scale)
@@ -414,6 +546,7 @@ def recipes(rnd, scale):
 def _tlc(module, cfg, **kw):
     """tlc.run; a run that ends without any verdict (JVM killed from outside on a
     shared machine) is repeated once before it is reported as a machinery error"""
+    kw.setdefault("heap", "2g")
     r = tlc.run(module, cfg, **kw)
     if not r.ok and r.violation is None:
         r = tlc.run(module, cfg, **kw)
@@ -465,7 +598,7 @@ def run(chk):
         mc = ex.submit(model_checking, thorough)
         # 2. trace validation of the real class
         rcs = recipes(rnd, 16 if thorough else 1)
-        events, rejected = pd.validate(chk, rcs, "C07", procs=8)
+        events, rejected = pd.validate(chk, rcs, "C07", procs=7)
         file_mc(chk, mc.result())
     for ev in events[:200:40]:
         chk.sample({k: v for k, v in ev.items() if k in ("ev", "op", "ord", "other", "fn")} | {"desc": pd.describe(ev, [])})
